@@ -114,6 +114,13 @@ struct Unbounded {
   NOP_STRUCTURE(Unbounded, (data, size));
   NOP_UNBOUNDED_BUFFER(Unbounded);
 };
+template <typename T>
+struct UnboundedSigned {
+  std::int8_t size;
+  T data[1];
+  NOP_STRUCTURE(UnboundedSigned, (data, size));
+  NOP_UNBOUNDED_BUFFER(UnboundedSigned);
+};
 // an unbounded buffer whose size member is narrower than the wire's 64-bit count (the decoder must refuse what it cannot count)
 template <typename T>
 struct UnboundedSmall {
